@@ -309,3 +309,12 @@ package openapiv3
 //@   at-call CreateSchemaProxy requires required_complete: arg0.Properties == baseProps ==> (forall k int :: 0 <= k && k < len(message.Fields) && !annotations.IsFlattenField(message.Fields[k]) && checkIfFieldRequired(message.Fields[k]) ==> (exists j int :: 0 <= j && j < len(arg0.Required) && arg0.Required[j] == message.Fields[k].Desc.JSONName()))
 //@   at-call CreateSchemaProxy requires promoted_properties_are_optional: arg0.Properties != baseProps && len(arg0.AllOf) == 0 ==> len(arg0.Required) == 0
 //@   loop 1 invariant forall k int :: 0 <= k && k < _i1 && !annotations.IsFlattenField(message.Fields[k]) && checkIfFieldRequired(message.Fields[k]) ==> (exists j int :: 0 <= j && j < len(baseRequired) && baseRequired[j] == message.Fields[k].Desc.JSONName())
+
+// every RPC of the service is turned into an operation, in declaration order, whatever its kind (C03/C18: "every RPC of a
+// service appears as exactly one operation" - processMethod's contract gives the "one operation", this one the "every")
+//@ func (g *Generator) processService(service *protogen.Service)
+//@   requires service != nil
+//@   modifies *
+//@   at-call processMethod requires each_rpc_in_order: arg0 == service && arg1 == service.Methods[count("processMethod") - old(count("processMethod"))]
+//@   loop 1 invariant count("processMethod") == old(count("processMethod")) + _i1
+//@   ensures every_rpc_processed: count("processMethod") == old(count("processMethod")) + len(service.Methods)
